@@ -9,16 +9,17 @@
 (* filters from it.                                                        *)
 (*                                                                         *)
 (* Blocks are 0..NB-1 (0 = genesis); sequences are indexed by id+1.        *)
-(* Transactions are 1..NT.  A transaction has one input and one output:    *)
-(*   TxPays[t]   address id its output 0 pays (0 = an address nobody       *)
-(*               watches, unique to t)                                     *)
-(*   TxSpends[t] outpoint id its input spends (0 = an outpoint nobody      *)
-(*               watches, unique to t)                                     *)
-(* Outpoint ids: t in 1..NT is output 0 of transaction t; NT+x is the      *)
-(* x-th "external" outpoint (created before the walk), whose script is the *)
-(* script of address ExtScript[x].                                         *)
-(* Watch items are encoded as integers: address a as a, outpoint o as      *)
-(* 100+o.                                                                  *)
+(* Transactions are 1..NT (NT <= 9).  A transaction has inputs and outputs: *)
+(*   TxOuts[t]   address id paid by each output, in order (0 = an address   *)
+(*               nobody watches, unique to that output)                    *)
+(*   TxIns[t]    outpoint id spent by each input (0 = an outpoint nobody   *)
+(*               watches, unique to that input)                            *)
+(* Outpoint ids: 10*t + j is output j (0-based) of transaction t; 1..9 are *)
+(* "external" outpoints (created before the walk), x having the script of  *)
+(* address ExtScript[x].  A transaction only spends outputs of             *)
+(* transactions with a smaller id.                                         *)
+(* Watch items are encoded as integers: address a (< 100) as a, outpoint o *)
+(* as 100+o.                                                               *)
 (***************************************************************************)
 EXTENDS Integers, Sequences
 
@@ -28,8 +29,10 @@ Parent == <<-1, 0, 1, 2, 1, 4, 5>>
 Height == << 0, 1, 2, 3, 2, 3, 4>>
 
 NT == 4
-TxPays    == <<1, 0, 2, 0>>
-TxSpends  == <<0, 1, 0, 5>>
+\* T1 pays the watched addresses 1 and 4, T2 spends T1's SECOND output,
+\* T3 pays address 2, T4 spends the external outpoint 1 (script of address 3)
+TxOuts    == << <<1, 4>>, <<0>>, <<2>>, <<0>> >>
+TxIns     == << <<0>>, <<11>>, <<0>>, <<1>> >>
 ExtScript == <<3>>
 
 \* transactions of each block, in block order (coinbase not listed)
@@ -37,10 +40,10 @@ BlockTxs == << <<>>, <<>>, <<1, 3>>, <<2, 4>>, <<3>>, <<1, 2, 4>>, <<>> >>
 
 StartB    == 0          \* the caller's start block (hash and height given)
 StartT    == 1          \* blocks at height >= StartT are after the start time
-InitWatch == <<1>>      \* WatchAddrs / WatchInputs given to NewRescan
+InitWatch == <<1, 4>>   \* WatchAddrs / WatchInputs given to NewRescan
 InitChain == <<0, 1, 2>> \* header chain when the rescan is started
 InitFH    == 2          \* height of the filter-header tip at that moment
 
 \* the updates the caller may send: items added and rewind height (0 = none)
-Updates == << [add |-> <<2, 105>>, rw |-> 1], [add |-> <<2, 105>>, rw |-> 0] >>
+Updates == << [add |-> <<2, 101>>, rw |-> 1], [add |-> <<2, 101>>, rw |-> 0] >>
 =============================================================================
